@@ -296,7 +296,7 @@ func (n *WorkflowNode) addDependencyRelation(fromNodeKey string, inputs []*Field
 		n.addInputs = append(n.addInputs, func() error {
 			var paths []FieldPath
 			for _, input := range inputs {
-				paths = append(paths, input.targetPath())
+				paths = append(paths, n.canonicalTargetPath(input.targetPath()))
 			}
 			if err := n.checkAndAddMappedPath(paths); err != nil {
 				return err
@@ -323,7 +323,7 @@ func (n *WorkflowNode) addDependencyRelation(fromNodeKey string, inputs []*Field
 		n.addInputs = append(n.addInputs, func() error {
 			var paths []FieldPath
 			for _, input := range inputs {
-				paths = append(paths, input.targetPath())
+				paths = append(paths, n.canonicalTargetPath(input.targetPath()))
 			}
 			if err := n.checkAndAddMappedPath(paths); err != nil {
 				return err
@@ -338,6 +338,63 @@ func (n *WorkflowNode) addDependencyRelation(fromNodeKey string, inputs []*Field
 	}
 
 	return n
+}
+
+// canonicalTargetPath spells out promoted fields of the node's input type, so that the conflict
+// check compares the fields the paths denote rather than the way they are written.
+func (n *WorkflowNode) canonicalTargetPath(path FieldPath) FieldPath {
+	if n.key != END {
+		if _, ok := n.g.nodes[n.key]; !ok {
+			return path
+		}
+	}
+
+	return canonicalFieldPath(path, n.g.getNodeInputType(n.key))
+}
+
+// canonicalFieldPath spells out promoted fields against typ: `ID` on a struct that embeds `Base`
+// becomes `Base.ID`. Two spellings of one field, or of a field and of the embedded struct that
+// holds it, become the equal / prefix-related paths they denote. Segments that cannot be resolved
+// statically (below an interface, unknown fields) are kept as they are.
+func canonicalFieldPath(path FieldPath, typ reflect.Type) FieldPath {
+	if typ == nil {
+		return path
+	}
+
+	out := make(FieldPath, 0, len(path))
+	for i, seg := range path {
+		if typ.Kind() == reflect.Map {
+			out = append(out, seg)
+			typ = typ.Elem()
+			continue
+		}
+
+		for typ.Kind() == reflect.Ptr {
+			typ = typ.Elem()
+		}
+
+		if typ.Kind() != reflect.Struct {
+			return append(out, path[i:]...)
+		}
+
+		f, ok := typ.FieldByName(seg)
+		if !ok {
+			return append(out, path[i:]...)
+		}
+
+		t := typ
+		for _, x := range f.Index {
+			for t.Kind() == reflect.Ptr {
+				t = t.Elem()
+			}
+			out = append(out, t.Field(x).Name)
+			t = t.Field(x).Type
+		}
+
+		typ = f.Type
+	}
+
+	return out
 }
 
 func (n *WorkflowNode) checkAndAddMappedPath(paths []FieldPath) error {
@@ -465,7 +522,7 @@ func (wf *Workflow[I, O]) compile(ctx context.Context, options *graphCompileOpti
 			var paths []FieldPath
 			for path, v := range n.staticValues {
 				value[path] = v
-				paths = append(paths, splitFieldPath(path))
+				paths = append(paths, n.canonicalTargetPath(splitFieldPath(path)))
 			}
 
 			if err := n.checkAndAddMappedPath(paths); err != nil {
